@@ -217,7 +217,14 @@ pub fn run(ctx: &Ctx) -> ! {
         budget = budget.saturating_sub(used);
         // re-evaluate the minimal case for the explanation
         let what = match evaluate_batch(std::slice::from_ref(&min), &format!("{tag}-min"), &format!("genout_{}_min", tag.to_lowercase().replace('-', "_"))) {
-            Ok(o) => o.findings[0].iter().find(|f| f.sig == sig).map(|f| f.what.clone()).unwrap_or(what),
+            Ok(o) => {
+                let w = o.findings[0].iter().find(|f| f.sig == sig).map(|f| f.what.clone()).unwrap_or(what);
+                if sig.contains(":does-not-compile:") {
+                    format!("{w}; minimal declaration: {}", render_decls(&min).split_whitespace().collect::<Vec<_>>().join(" "))
+                } else {
+                    w
+                }
+            }
             Err(_) => what,
         };
         let to = serde_json::to_string(&min).unwrap().len() as u64;
